@@ -1,2 +1,98 @@
--- stub: replaced by the model driver of this property
-def main : IO Unit := pure ()
+import SdcModel.Basic.Io
+import SdcModel.Fp64
+import SdcModel.Scalars
+open Sdc Sdc.Fp64 Sdc.Scalars
+
+/-! driver of the C18 model. Strings travel as `x<hex of utf-8>`; floats as `<neg 0|1> <m> <e>` (value m·2^e).
+    ops: tspy S | tsxml n m e | int S | intxml i | bool S | boolxml 0|1 | decpy S | decxml n c e |
+         durstr n m e | durpy S | enum S L1 L2 …   -/
+
+def hexVal (c : Char) : Option Nat :=
+  if '0' ≤ c ∧ c ≤ '9' then some (c.toNat - 48)
+  else if 'a' ≤ c ∧ c ≤ 'f' then some (c.toNat - 87) else none
+
+def hexBytes : List Char → Option (List UInt8)
+  | [] => some []
+  | [_] => none
+  | a :: b :: r => do
+    let x ← hexVal a
+    let y ← hexVal b
+    let t ← hexBytes r
+    pure ((x * 16 + y).toUInt8 :: t)
+
+def decodeStr (w : String) : Option Str :=
+  match w.toList with
+  | 'x' :: r => do
+    let bs ← hexBytes r
+    let s ← String.fromUTF8? (ByteArray.mk bs.toArray)
+    pure (s.toList.map Char.toNat)
+  | _ => none
+
+def showStr (s : Str) : String := String.ofList (s.map Char.ofNat)
+
+def showFp (x : Fp) : String := s!"ok {if x.neg then 1 else 0} {x.m} {x.e}"
+
+def showErr : Err → String
+  | .value => "err value"
+  | .overflow => "err overflow"
+
+def showRes {α} (f : α → String) : Except Err α → String
+  | .ok a => f a
+  | .error e => showErr e
+
+def parseFp (n m e : String) : Option Fp := do
+  let n ← n.toNat?
+  let m ← m.toNat?
+  let e ← e.toInt?
+  pure ⟨n == 1, m, e⟩
+
+/-- dense window `[a, b)`: number of `n` with `tsXml (tsPy n) ≠ n` and a checksum over `(m, e, tsXml)` -/
+def tsWindow (a b : Nat) : Nat × UInt64 := Id.run do
+  let mut bad := 0
+  let mut cs : UInt64 := 0
+  for n in [a:b] do
+    let x := tsPy n
+    let k := tsXml x
+    if k ≠ n then bad := bad + 1
+    cs := cs + x.m.toUInt64 * (n % 65521 + 1).toUInt64 + ((x.e + 1100).toNat * 31).toUInt64 + (k.toNat * 17).toUInt64
+  return (bad, cs)
+
+def stepLine (st : Unit) (line : String) : Unit × String :=
+  (st, match Io.words line with
+  | ["tspy", s] => match decodeStr s with
+    | some s => showRes showFp (tsToPy s)
+    | none => "bad-op"
+  | ["tswin", a, b] => match a.toNat?, b.toNat? with
+    | some a, some b => let r := tsWindow a b; s!"ok {r.1} {r.2}"
+    | _, _ => "bad-op"
+  | ["tsxml", n, m, e] => match parseFp n m e with
+    | some x => "ok " ++ showStr (tsToXml x)
+    | none => "bad-op"
+  | ["int", s] => match decodeStr s with
+    | some s => showRes (fun i => s!"ok {i}") (intToPy s)
+    | none => "bad-op"
+  | ["intxml", i] => match i.toInt? with
+    | some i => "ok " ++ showStr (intToXml i)
+    | none => "bad-op"
+  | ["bool", s] => match decodeStr s with
+    | some s => showRes (fun b => s!"ok {b}") (boolToPy s)
+    | none => "bad-op"
+  | ["boolxml", b] => "ok " ++ showStr (boolToXml (b == "1"))
+  | ["decpy", s] => match decodeStr s with
+    | some s => showRes (fun d => s!"ok {if d.neg then 1 else 0} {d.coeff} {d.exp}") (decToPy s)
+    | none => "bad-op"
+  | ["decxml", n, c, e] => match n.toNat?, c.toNat?, e.toInt? with
+    | some n, some c, some e => "ok " ++ showStr (decToXml ⟨n == 1, c, e⟩)
+    | _, _, _ => "bad-op"
+  | ["durstr", n, m, e] => match parseFp n m e with
+    | some x => showRes (fun s => "ok " ++ showStr s) (durationString x)
+    | none => "bad-op"
+  | ["durpy", s] => match decodeStr s with
+    | some s => showRes showFp (parseDuration s)
+    | none => "bad-op"
+  | "enum" :: s :: lits => match decodeStr s, lits.mapM decodeStr with
+    | some s, some ls => showRes (fun i => s!"ok {i}") (enumToPy ls s)
+    | _, _ => "bad-op"
+  | _ => "bad-op")
+
+def main : IO Unit := Io.lineLoop stepLine ()
